@@ -56,8 +56,8 @@ def is_arr(value):
 is_array = is_arr
 
 def is_int(value):
-    """ is value an int, or any numpy integer type (signed or unsigned, of any width)"""
-    return isinstance(value, (int, np.integer))
+    """ is value an int, or any numpy integer type (signed or unsigned, of any width). A np.timedelta64 is a duration, not an integer (numpy derives it from np.signedinteger)"""
+    return isinstance(value, (int, np.integer)) and not isinstance(value, np.timedelta64)
 
 def is_float(value):
     """ is value an float, or any numpy float type (of any width) """
@@ -65,7 +65,7 @@ def is_float(value):
 
 def is_num(value):
     """ is _int(value) or is_float(value)"""
-    return isinstance(value, (int, np.integer, float, np.floating))
+    return isinstance(value, (int, np.integer, float, np.floating)) and not isinstance(value, np.timedelta64)
 
 def is_bool(value):
     """ is value a Bool, or a np.bool_ type"""
